@@ -169,7 +169,9 @@ def run_extractors():
     ok = True
     outdir = os.path.join(LEAN, "FparserModel", "Generated")
     os.makedirs(outdir, exist_ok=True)
-    for m in sorted(x.name for x in pkgutil.iter_modules(fv.__path__) if x.name.startswith("extract_")):
+    # extract_rest reads what the other translators wrote (inventory of pinned methods): last
+    for m in sorted((x.name for x in pkgutil.iter_modules(fv.__path__) if x.name.startswith("extract_")),
+                    key=lambda n: (n == "extract_rest", n)):
         try:
             mod = importlib.import_module("fv." + m)
             mod.generate(outdir)
